@@ -17,6 +17,7 @@ prop, k = sys.argv[1], sys.argv[2]
 args = sys.argv[3:]
 tier = args[args.index("--tier") + 1] if "--tier" in args else "quick"
 root = args[args.index("--root") + 1] if "--root" in args else "/tmp/benign"
+tag = args[args.index("--tag") + 1] if "--tag" in args else ""
 src = "%s/%s/out" % (root, prop)
 diff = os.path.join(src, "ref%s.diff" % k)
 eq = os.path.join(src, "eq%s.py" % k)
@@ -64,7 +65,7 @@ try:
         res = dict(ex.map(run, checks))
     out["checks"] = res
     out["alarms"] = [c for c, v in res.items() if v["exit"] != 0]
-    dst = "/verif/benign/%s_%s" % (prop, k)
+    dst = "/verif/benign/%s_%s%s" % (prop, tag, k)
     os.makedirs(dst, exist_ok=True)
     shutil.copy(diff, os.path.join(dst, "patch.diff"))
     if os.path.exists(eq):
